@@ -190,3 +190,47 @@ func init() {
 		}
 	})
 }
+
+func init() {
+	moreRegs = append(moreRegs, func(eng *Engine) {
+		in := eng.intrinsics
+		in["context.WithValue"] = func(w *Worker, fr *frame, fn *ssa.Function, args []value) value {
+			// the library version only adds reflection-based sanity checks on the key
+			cp := w.eng.prog.ImportedPackage("context")
+			t := cp.Type("valueCtx").Type()
+			cell := new(value)
+			*cell = structure{args[0], args[1], args[2]}
+			return iface{t: types.NewPointer(t), v: cell}
+		}
+	})
+}
+
+func init() {
+	moreRegs = append(moreRegs, func(eng *Engine) {
+		in := eng.intrinsics
+		// text encodings of symbolic data are opaque (only used for event attributes and log text)
+		opaqueIfSym := func(label string) intrinsicFn {
+			return func(w *Worker, fr *frame, fn *ssa.Function, args []value) value {
+				for _, a := range args[1:] {
+					if b, ok := a.([]value); ok {
+						for _, x := range b {
+							if _, c := x.(uint64); !c {
+								return "<" + label + " of symbolic data>"
+							}
+						}
+					}
+				}
+				return w.callBody(fr, fn, args)
+			}
+		}
+		in["(*encoding/base64.Encoding).EncodeToString"] = opaqueIfSym("base64")
+		in["encoding/hex.EncodeToString"] = func(w *Worker, fr *frame, fn *ssa.Function, args []value) value {
+			for _, x := range args[0].([]value) {
+				if _, c := x.(uint64); !c {
+					return "<hex of symbolic data>"
+				}
+			}
+			return w.callBody(fr, fn, args)
+		}
+	})
+}
